@@ -564,10 +564,11 @@ def live_histories(seed, count):
 
 def _plan(tier):
     if tier == "quick":
-        return {"blocks": 30, "rt": 1500, "two_cut_len": 26, "sample": 6, "live": 40, "procs": 1,
+        return {"blocks": 30, "rt": 1500, "levels": ((26, 2),), "sample": 6, "live": 40, "procs": 1,
                 "variants": 1}
-    return {"blocks": 80, "rt": 12000, "two_cut_len": 60, "sample": 40, "live": 400, "procs": 16,
-            "variants": 4}
+    # (max stream length, cut-set size enumerated exhaustively)
+    return {"blocks": 80, "rt": 12000, "levels": ((11, 4), (18, 3), (44, 2)), "sample": 25, "live": 400,
+            "procs": 16, "variants": 4}
 
 
 _CASES_CACHE = {}
@@ -581,28 +582,28 @@ def _cases(tier, seed):
     return _CASES_CACHE[key]
 
 
+def _exhaustive_level(plan, n):
+    for limit, size in plan["levels"]:
+        if n <= limit:
+            return size
+    return 1
+
+
 def _build_cases(tier, seed):
+    """Cases; a "pxs" case is a whole stream: the worker enumerates its cut sets and decorations itself."""
     plan = _plan(tier)
     pool = c03.style_pool(seed, plan["blocks"], 40)
     cases = [("rt", parts) for parts in rt_cases(seed, pool, plan["rt"])]
-    rng = random.Random(seed * 2221 + 9)
-    vcount = 0
+    seen = set()
+    k = 0
     for stream in proxy_streams(seed, tier):
         text = stream_text(stream)
-        n = len(text)
-        if tier == "quick":
-            exhaustive = 2 if n <= plan["two_cut_len"] else 1
-        else:
-            exhaustive = 4 if n <= 14 else 3 if n <= 24 else 2 if n <= plan["two_cut_len"] else 1
-        for cuts in cut_sets(n, 4, rng, exhaustive, plan["sample"]):
-            if plan["variants"] == 1:
-                variants = (vcount % 4,)
-                vcount += 1
-            else:
-                variants = (0, 1, 2, 3)
-            for v in variants:
-                cases.append(("px", history_from_cuts(text, cuts, v, rng)))
-    # undecodable line scenarios
+        if text in seen or not text:
+            continue
+        seen.add(text)
+        cases.append(("pxs", text, _exhaustive_level(plan, len(text)), plan["sample"], plan["variants"],
+                      seed * 2221 + 9 + k, k))
+        k += 1
     for before, after in (("abc", "xyz"), ("", "k"), ("\x1b[1mb\x1b[0m", "z")):
         text = before + "\n" + UNDECODABLE + "\n" + after + "\n"
         cases.append(("ud", [["w", text]]))
@@ -611,6 +612,21 @@ def _build_cases(tier, seed):
     for k, ops in enumerate(live_histories(seed, plan["live"])):
         cases.append(("lv", ops, "live" if k % 2 == 0 else "progress"))
     return plan, cases
+
+
+def stream_histories(job):
+    """All histories of one stream job, in a fixed order."""
+    _kind, text, exhaustive, sample, variants, rseed, index = job
+    rng = random.Random(rseed)
+    vcount = index
+    for cuts in cut_sets(len(text), 4, rng, exhaustive, sample):
+        if variants == 1:
+            chosen = (vcount % 4,)
+            vcount += 1
+        else:
+            chosen = (0, 1, 2, 3)
+        for v in chosen:
+            yield history_from_cuts(text, cuts, v, rng)
 
 
 def _eval_case(case):
@@ -624,20 +640,61 @@ def _eval_case(case):
     return live_evaluate(case[1], case[2])
 
 
+_FALLBACK = {"rt": "c19.roundtrip_chars", "px": "c19.lines_once", "ud": "c19.undecodable_line",
+             "lv": "c19.live_redirect"}
+
+
+def _eval_guarded(case):
+    try:
+        evaluated, fails = _eval_case(case)
+    except Exception as exc:
+        clause = _FALLBACK[case[0]]
+        evaluated = [clause]
+        fails = [(clause, "exception %s: %s" % (type(exc).__name__, exc), "no exception", repr(exc))]
+    return evaluated, [(f[0], f[1], c03._jsonable(f[2]), c03._jsonable(f[3])) for f in fails]
+
+
 def _run_chunk(args):
+    """Returns per case: (case index, clause counts, evaluations, distinct, non-trivial, failure candidates)
+    where a candidate is (replayable case, clause, what, expected, observed)."""
     tier, seed, lo, hi = args
     _plan_, cases = _cases(tier, seed)
     results = []
     for ci in range(lo, hi):
         case = cases[ci]
-        try:
-            evaluated, fails = _eval_case(case)
-        except Exception as exc:
-            clause = {"rt": "c19.roundtrip_chars", "px": "c19.lines_once", "ud": "c19.undecodable_line",
-                      "lv": "c19.live_redirect"}[case[0]]
-            evaluated = [clause]
-            fails = [(clause, "exception %s: %s" % (type(exc).__name__, exc), "no exception", repr(exc))]
-        results.append((ci, evaluated, [(f[0], f[1], c03._jsonable(f[2]), c03._jsonable(f[3])) for f in fails]))
+        counts = {}
+        cands = []
+        if case[0] == "pxs":
+            keys = set()
+            nontrivial = 0
+            n = 0
+            kept = {}
+            for ops in stream_histories(case):
+                n += 1
+                key = zlib.crc32(json.dumps(ops).encode())
+                if key not in keys:
+                    keys.add(key)
+                    nontrivial += 1  # the stream is non-empty, so something non-empty is written
+                evaluated, fails = _eval_guarded(("px", ops))
+                for c in evaluated:
+                    counts[c] = counts.get(c, 0) + 1
+                for f in fails:
+                    sig = (f[0], _signature(*f))
+                    if kept.get(sig, 0) < 2:
+                        kept[sig] = kept.get(sig, 0) + 1
+                        cands.append((("px", ops),) + f)
+            results.append((ci, counts, n, len(keys), nontrivial, cands))
+        else:
+            evaluated, fails = _eval_guarded(case)
+            for c in evaluated:
+                counts[c] = counts.get(c, 0) + 1
+            if case[0] == "rt":
+                nt = int(any(t.strip("\n") and not c03.spec_is_null(s) for t, s in case[1]))
+            elif case[0] == "ud":
+                nt = int(any(op[0] == "w" and op[1] for op in case[1]))
+            else:
+                nt = 1
+            results.append((ci, counts, 1, 1, nt, [((case),) + f for f in fails]))
     return results
 
 
@@ -646,6 +703,9 @@ def _case_input(case):
         return {"kind": "roundtrip", "parts": [[t, c03.spec_json(s)] for t, s in case[1]]}
     if case[0] == "px":
         return {"kind": "proxy", "ops": case[1]}
+    if case[0] == "pxs":
+        return {"kind": "proxy-stream", "stream": case[1], "exhaustive_cut_size": case[2], "sampled": case[3],
+                "decorations": case[4]}
     if case[0] == "ud":
         return {"kind": "undecodable", "ops": case[1]}
     return {"kind": case[2], "ops": case[1]}
@@ -674,10 +734,23 @@ def run(tier: str = "quick", seed: int = 0) -> dict:
     if plan["procs"] > 1:
         import multiprocessing
 
-        step = max(1, n // (plan["procs"] * 8))
-        chunks = [(tier, seed, lo, min(n, lo + step)) for lo in range(0, n, step)]
+        # stream jobs differ a lot in size: hand them out one by one, longest first
+        order = sorted(range(n), key=lambda i: -(len(cases[i][1]) ** min(cases[i][2], 3) if cases[i][0] == "pxs"
+                                                 else 1))
+        singles = [i for i in order if cases[i][0] == "pxs"]
+        rest = sorted(i for i in order if cases[i][0] != "pxs")
+        chunks = [(tier, seed, i, i + 1) for i in singles]
+        step = max(1, len(rest) // (plan["procs"] * 4))
+        # the non-stream cases are contiguous runs in the case list: chunk by index ranges
+        runs = []
+        for i in rest:
+            if runs and runs[-1][1] == i and runs[-1][1] - runs[-1][0] < step:
+                runs[-1][1] = i + 1
+            else:
+                runs.append([i, i + 1])
+        chunks += [(tier, seed, lo, hi) for lo, hi in runs]
         with multiprocessing.Pool(plan["procs"]) as mp:
-            parts = mp.map(_run_chunk, chunks)
+            parts = mp.map(_run_chunk, chunks, chunksize=1)
         results = [r for part in parts for r in part]
     else:
         results = _run_chunk((tier, seed, 0, n))
@@ -687,30 +760,24 @@ def run(tier: str = "quick", seed: int = 0) -> dict:
     failures = []
     candidates = {}
     cand_sigs = set()
-    distinct = set()
-    nontrivial = set()
+    evaluations = 0
+    distinct = 0
+    nontrivial = 0
     kinds = {}
-    for ci, evaluated, fails in results:
+    for ci, counts, n_eval, n_distinct, n_nontrivial, cands in results:
         case = cases[ci]
-        kinds[case[0]] = kinds.get(case[0], 0) + 1
-        for c in evaluated:
-            clauses[c] = clauses.get(c, 0) + 1
-        inp = _case_input(case)
-        key = _key(inp)
-        distinct.add(key)
-        if case[0] == "rt":
-            if any(t.strip("\n") and not c03.spec_is_null(s) for t, s in case[1]):
-                nontrivial.add(key)
-        elif case[0] in ("px", "ud"):
-            if any(op[0] == "w" and op[1] for op in case[1]):
-                nontrivial.add(key)
-        else:
-            nontrivial.add(key)
-        for clause, what, exp, obs in fails:
+        kind = "px" if case[0] == "pxs" else case[0]
+        kinds[kind] = kinds.get(kind, 0) + n_eval
+        evaluations += n_eval
+        distinct += n_distinct
+        nontrivial += n_nontrivial
+        for c, v in counts.items():
+            clauses[c] = clauses.get(c, 0) + v
+        for fcase, clause, what, exp, obs in cands:
             cand = candidates.setdefault(clause, [])
             sig = _signature(clause, what, exp, obs)
             if len(cand) < 20 or (clause, sig) not in cand_sigs:
-                cand.append((ci, what, exp, obs))
+                cand.append((fcase, what, exp, obs))
             cand_sigs.add((clause, sig))
 
     # at most MAX_FAIL per clause; failures with a different signature (root-cause guess) come first
@@ -728,8 +795,7 @@ def run(tier: str = "quick", seed: int = 0) -> dict:
             if item not in picked:
                 picked.append(item)
         chosen.extend((clause,) + item for item in picked)
-    for clause, ci, what, exp, obs in chosen:
-        case = cases[ci]
+    for clause, case, what, exp, obs in chosen:
         inp = _case_input(case)
         small = inp
         if case[0] == "rt":
@@ -751,25 +817,28 @@ def run(tier: str = "quick", seed: int = 0) -> dict:
             continue
         failures.append(record)
 
-    samples = [_case_input(cases[0]), _case_input(cases[kinds.get("rt", 0) + 5]), _case_input(cases[-1])]
+    first_stream = next(c for c in cases if c[0] == "pxs")
+    samples = [_case_input(cases[0]), _case_input(("px", next(iter(stream_histories(first_stream))))),
+               _case_input(cases[-1])]
+    n_streams = sum(1 for c in cases if c[0] == "pxs")
+    levels = ", ".join("all %d-cut sets for streams <= %d chars" % (size, limit) for limit, size in plan["levels"])
     return {
-        "evaluations": len(results),
-        "distinct_nontrivial": len(nontrivial),
+        "evaluations": evaluations,
+        "distinct_nontrivial": nontrivial,
         "rule": ("cases = round-trip texts (1..4 styled pieces, non-trivial if a non-null style covers a "
                  "character) + proxy histories (a stream cut into writes, decorated with flushes / empty writes; "
-                 "non-trivial if something non-empty is written) + undecodable-line histories + Live/Progress "
-                 "histories; distinct by crc of the replayable input: %d distinct; by kind %s" % (
-                     len(distinct), json.dumps(kinds, sort_keys=True))),
+                 "non-trivial if something non-empty is written; distinct by crc of the operation list within a "
+                 "stream, streams are distinct texts) + undecodable-line histories + Live/Progress histories; "
+                 "%d distinct; by kind %s" % (distinct, json.dumps(kinds, sort_keys=True))),
         "bound": ("tier %s seed %d: round trip %d texts over the C03 style pool (%d blocks of 27, truecolor, "
-                  "texts incl. wide, markup-looking, newlines); proxy: streams of <= 4 lines from %d plain / %d SGR+"
-                  "OSC8 / %d bracket+emoji-code lines (no tab, no CR: Text expands / the decoder applies them by "
-                  "design), cut into <= 5 writes: all 1-cuts, all 2-cuts for streams <= %d chars%s, %d random cut "
-                  "sets per larger size; 4 decorations (writes only / flush after each / one flush + empty write / "
-                  "empty writes + final flush)%s; Live and Progress: %d histories over stdout+stderr" % (
-                      tier, seed, plan["rt"], plan["blocks"], len(PLAIN_LINES), len(SGR_LINES),
-                      len(BRACKET_LINES), plan["two_cut_len"],
-                      "" if tier == "quick" else ", all 3-cuts <= 24 chars, all 4-cuts <= 14 chars",
-                      plan["sample"], " rotated" if plan["variants"] == 1 else " all", plan["live"])),
+                  "texts incl. wide, markup-looking, newlines); proxy: %d streams of <= 4 lines from %d plain / %d "
+                  "SGR+OSC8 / %d bracket+emoji-code lines (no tab, no CR: Text expands / the decoder applies them "
+                  "by design), cut into <= 5 writes: all 1-cut sets, %s, %d random cut sets per larger size up to "
+                  "4; 4 decorations (writes only / flush after each / one flush + empty write / empty writes + "
+                  "final flush)%s; Live and Progress: %d histories over stdout+stderr" % (
+                      tier, seed, plan["rt"], plan["blocks"], n_streams, len(PLAIN_LINES), len(SGR_LINES),
+                      len(BRACKET_LINES), levels, plan["sample"],
+                      " rotated" if plan["variants"] == 1 else " all", plan["live"])),
         "samples": samples,
         "clauses": clauses,
         "failures": failures,
